@@ -592,6 +592,55 @@ func (c *kase) clauses(o *obs, fail func(class, what string)) {
 			fail(cls, fmt.Sprintf("%q: no HTTP-port server without a user route for it redirects to a served port %v (effective: %s)", name, keys(right), c.effTable(o)))
 		}
 	}
+	// ---- (c') every interface a name is served on at the HTTPS port gets its redirect listener:
+	// when no configured server listens on the HTTP port of that network, the generated
+	// redirect server must listen on exactly that interface's HTTP port and redirect the name
+	// (the `bind` case, upstream issue 3443)
+	for si := range c.servers {
+		s := &c.servers[si]
+		if c.hasReserved() || !c.active(s) || s.disableRedir {
+			continue
+		}
+		for _, d := range s.domainSet() {
+			if d == 0 {
+				continue
+			}
+			for _, a := range s.listen {
+				if a.sp != c.httpsPort() {
+					continue
+				}
+				covered := false
+				for sj := range c.servers {
+					for _, b := range c.servers[sj].listen {
+						if b.net == a.net && b.coversPort(hp) {
+							covered = true
+						}
+					}
+				}
+				if covered {
+					continue
+				}
+				want := addr{a.net, a.host, hp, hp}
+				ns := o.servers[reservedName]
+				okListen, okRoute := false, false
+				if ns != nil {
+					for _, l := range ns.listen {
+						if l == want {
+							okListen = true
+						}
+					}
+					for _, r := range ns.routes {
+						if r.redir && (!r.hasHost || has(r.hosts, c.names[d].s)) {
+							okRoute = true
+						}
+					}
+				}
+				if !okListen || !okRoute {
+					fail("redirect:https-interface-without-http-redirect-listener", fmt.Sprintf("%q is served by server %s on %s (HTTPS port) and nothing is configured on the HTTP port there, but the redirect server does not listen on %s with a redirect for it (listen ok %v, route ok %v)", c.names[d].s, s.name, a.listen(), want.listen(), okListen, okRoute))
+				}
+			}
+		}
+	}
 	// ---- (d) position and port rule of every redirect route
 	for _, os := range o.servers {
 		lastHost := 0
